@@ -39,7 +39,7 @@ def payload_monitor(ctx, state, world, hist, outs, runner):
                         err = "collection %r listed although the policy grants none of %r (has %r)" % (e[1], need, pm)
                 elif e[0] == "CEItem":
                     pm = perm(pols, ui, e[1][:-1])
-                    need = "r" if r[0] == "RMultiget" else "rw"
+                    need = "r" if r[0] in ("RMultiget", "RQuery") else "rw"
                     if not set(pm) & set(need):
                         err = "item %r reported although the policy grants none of %r on its collection (has %r)" % (e[1], need, pm)
         elif o[1][0] == "CPItem":
@@ -48,6 +48,11 @@ def payload_monitor(ctx, state, world, hist, outs, runner):
         elif o[1][0] == "CPExport":
             if not set(perm(pols, ui, r[1])) & set("ri"):
                 err = "collection content served without r or i"
+        elif o[1][0] == "CPBusy":
+            # a free-busy answer (even an empty one) tells about the events of the target's calendar
+            tgt = tuple(r[1])
+            if "r" not in perm(pols, ui, tgt) and not (len(tgt) == 3 and "r" in perm(pols, ui, tgt[:-1])):
+                err = "free-busy information served without r on the calendar"
         if err and "v" not in state:
             state["v"] = True
             ctx.violation("request %d: %s" % (k, err), dict(world=x_hcheck.world_json(world), history=hist[:k + 1], response=repr(o)))
@@ -242,6 +247,10 @@ def two_store_differential(ctx, n):
         sa = setup_hist(0)
         sb = setup_hist(1)
         probes = [(ui, r) for (_, r) in xh.gen_history(rng, rng.randrange(6, 20), et)]
+        # the REPORTs that list or summarise a collection's members: on dark and on visible paths, collections and items
+        qpaths = [(10, 20), (10, 21), (11, 20), (11, 22), (10, 22), (10, 20, 100), (11, 20, 101), (10, 21, 200), (10,), (11,)]
+        for _q in range(4):
+            probes.insert(rng.randrange(len(probes) + 1), (ui, xh.gen_query(rng, rng.choice(qpaths))))
         ulogin = (xh.USERS[ui] + ":") if xh.USERS[ui] else None
         want_raw = done % 3 == 0            # every third pair also gets the raw observers (about 700 requests per store)
         ra = xh.Runner(et)
@@ -384,6 +393,9 @@ def gen_cross_user(rng, et):
             ("RProppatch", victim, ("XProps", ("TRNone",), [(1, 2)])), ("RMkcol", victim[:1] + (22,), ("XNone",)),
             ("RMkcalendar", victim[:1] + (21,), ("XNone",)), ("RGet", vitem), ("RGet", victim), ("RPropfind", victim, True),
             ("RPropfind", victim[:1], True), ("RMultiget", mine, not card_m, [vitem, mitem]), ("RMultiget", victim, not card_v, [vitem]),
+            xh.gen_query(rng, victim), xh.gen_query(rng, vitem), ("RQuery", victim, "QAdr" if card_v else "QCal", None),
+            ("RQuery", victim, "QSync", None), ("RQuery", vitem, "QSync", None), ("RQuery", victim, "QFreeBusy", ("range", True)),
+            ("RQuery", vitem, "QFreeBusy", ("range", True)),
         ])))
     return (cfg, pols), hist
 
